@@ -7,6 +7,22 @@ ids = [p["id"] for p in props]
 
 # id -> (technique, level text, level note, design ref)
 claimed = {
+ "C05": ("crash-point enumeration on top of explicit-state exploration: for every explored state and every interruptible operation, every prefix of the operation's physical write sequence is materialised, reopened and compared with the crash-free pre/post states; then the operation is repeated",
+         "For every state of a bounded exploration (3 keys, values long enough that commits and index builds of 2-3 keys span several flushes) and every enabled SaveVersion / DeleteVersionsTo(n) / LoadVersionForOverwriting(v) / first open with the fast index: all cuts 0..m between consecutive physical writes, flush thresholds {150,250,400,1000,default}, fast on/off, each image reopened with the index on and off: Load succeeds, the image equals the crash-free pre- or post-state on every read path (tree walk, index, iteration, hashes), and repeating the operation reaches the crash-free result.",
+         "Fault model of the statement (atomic ordered batch writes). Import commits are covered by C10/C17. Bounded: depth 5 (quick) / 7 (thorough), <= 4 versions.",
+         "DESIGN.md §4 C05"),
+ "C10": ("explicit-state exploration with export/import points (both codecs) and reference export streams, plus exhaustive enumeration of a finite language of hostile import streams",
+         "Fidelity: in every explored state every retained version exports exactly the reference post-order stream; export+import (plain and compressed) into an empty store is a transition of the exploration, after which reads, hashes, proofs, storage reachability and all further commit hashes are compared with the model. Totality: every ExportNode sequence of length <= 2 (thorough: <= 3, 1.7M) over a 120-symbol alphabet, every <= 1 (thorough: 2)-edit mutation of valid streams, hostile delta-encoded keys, each ended by Commit or Close, plain and compressed: no panic, and nothing visible on a fresh instance unless Commit succeeded.",
+         "Bounded alphabets as listed; > 10 000-node imports only by one fixed 6 000-leaf tree (thorough).",
+         "DESIGN.md §4 C10"),
+ "C13": ("explicit-state exploration with the raw storage decoded by an independent codec (direction 1) and databases written by an independent encoder opened by the library (direction 2), plus exhaustive enumeration of short byte strings and mutations of valid encodings for every decoder",
+         "Direction 1: in every explored state the stored bytes decode (check/ref/codec.go) to exactly the reference tree of every retained version (keys, values, heights, sizes, node versions, hashes, child links, root markers). Direction 2: for every explored state a database written by the independent encoder from the reference trees is opened by iavl (fast index off and on) and all reads, hashes and version bookkeeping equal the model. Totality: all byte strings of length <= 2 (thorough: <= 3) and 1-2 byte mutations / truncations / extensions of valid encodings fed to MakeNode, MakeLegacyNode, fastnode.DeserializeNode, encoding.Decode{Bytes,Uvarint,Varint} and the reference-root reader: no panic, bounded allocation.",
+         "Trusted: check/ref (codec + reference tree).",
+         "DESIGN.md §4 C13"),
+ "C15": ("explicit-state exploration incl. repeated writes of a key, set-then-remove, identical rewrites, no-op/empty versions, pruning and SaveChangeSet; oracle = net writes computed by the model for every version and every (start,end) range, plus replay of all extracted change sets into an empty twin",
+         "In every explored state, for every (start,end): TraverseStateChanges delivers every retained version of the range once, ascending; each change set is ascending, one entry per key, and equals exactly the keys written in v that are present in v (also with unchanged value) plus deletions of keys present in v-1 and absent in v. SaveChangeSet commits one new version or rejects the removal of a missing key without creating a version. Replaying the extracted change sets into an empty tree reproduces every version's contents, and its root hashes when all original writes were in normal form.",
+         "Bounded: 2-3 keys x 2 values, depth <= 8, <= 4 versions.",
+         "DESIGN.md §4 C15"),
  "C04": ("explicit-state exploration of commit / no-op commit / prune / rollback / reopen / export-pin histories; after every step contents, hashes and proofs of every later version are compared with the model, live and on a fresh instance",
          "All histories over {Set, Remove, SaveVersion with and without writes, DeleteVersionsTo(n) for every n (one or many versions per call, repeated), LoadVersionForOverwriting, reopen, export open/close, ReadEverything} up to the bounds in the evidence, under flush thresholds {150,400,default} x cache {0,3,1000} x fast on/off: after every step every retained version's contents, root hash and proofs equal the model, also on a fresh instance opened on a copy of the storage; requests that must be rejected (n >= latest, version pinned by an open export) return an error and leave the storage byte-identical.",
          "Bounded: 2-3 keys, depth <= 11 (narrow alphabet) / <= 8 (full alphabet), <= 4 maintenance steps.",
